@@ -72,7 +72,7 @@ TOKEN_RE = re.compile(r"""
   | (?P<str>b?"(?:\\.|[^"\\])*")
   | (?P<chr>'(?:\\.|[^'\\])')
   | (?P<life>'[A-Za-z_]\w*)
-  | (?P<num>\d[\d_]*(?:\.\d[\d_]*)?(?:[eE][+-]?\d+)?(?:[iuf](?:8|16|32|64|128|size))?)
+  | (?P<num>(?:0[xX][0-9A-Fa-f_]+|0b[01_]+|0o[0-7_]+|\d[\d_]*(?:\.\d[\d_]*)?(?:[eE][+-]?\d+)?)(?:[iuf](?:8|16|32|64|128|size))?)
   | (?P<id>\$?[A-Za-z_]\w*)
   | (?P<op>\.\.=|\.\.\.|<<=|>>=|=>|==|!=|<=|>=|&&|\|\||\+=|-=|\*=|/=|%=|\^=|&=|\|=|<<|>>|\.\.|::|->|[-+*/%^!&|=<>@.,;:#$?~(){}\[\]])
 """, re.X | re.S)
@@ -601,12 +601,15 @@ class Parser(object):
                     continue
                 if n.kind != "id":
                     raise Unrecognised(n.line, "field or method expected after `.`")
+                fish = ""
                 if self.at("::"):
                     self.next()
+                    g0 = self.i
                     self.skip_generics()
+                    fish = "::" + "".join(x.text for x in self.toks[g0:self.i])      # kept: `.read_u32::<LittleEndian>()`
                 if self.at("("):
                     self.next()
-                    e = Tm("." + n.text + "()", [e] + self.args(")"), n.line)
+                    e = Tm("." + n.text + fish + "()", [e] + self.args(")"), n.line)
                 else:
                     e = Tm("." + n.text, [e], n.line)
             elif t.text == "(" and t.kind == "op":
